@@ -29,7 +29,7 @@ type c13Msg struct {
 	Dels       []Path
 	Upds       []Leaf // scalar / leaf-list updates
 	JSON       *c13JSON
-	LLKeys     *c13LLKeys
+	LLKeys     []c13LLKeys
 }
 
 type c13JSON struct {
@@ -54,9 +54,9 @@ func (m c13Msg) notification() *sdcpb.Notification {
 	if m.JSON != nil {
 		n.Update = append(n.Update, &sdcpb.Update{Path: m.JSON.At.Sdcpb(), Value: &sdcpb.TypedValue{Value: &sdcpb.TypedValue_JsonVal{JsonVal: []byte(m.JSON.Doc)}}})
 	}
-	if m.LLKeys != nil {
-		for _, v := range m.LLKeys.Vals {
-			p := m.LLKeys.At.Sdcpb()
+	for _, lk := range m.LLKeys {
+		for _, v := range lk.Vals {
+			p := lk.At.Sdcpb()
 			last := p.Elem[len(p.Elem)-1]
 			last.Key = map[string]string{last.Name: v}
 			n.Update = append(n.Update, &sdcpb.Update{Path: p})
@@ -75,7 +75,9 @@ func c13Alphabet() map[string]c13Msg {
 		{Name: "uS", Upds: []Leaf{leaf("up", "if", e1, "oper-state")}},
 		{Name: "uJ", JSON: &c13JSON{At: P("if", e1), Doc: `{"descr":"j","enabled":false}`, Leaves: []Leaf{leaf("j", "if", e1, "descr"), leaf("false", "if", e1, "enabled")}}},
 		{Name: "uK", JSON: &c13JSON{At: P("if"), Doc: `{"name":"e2","descr":"k"}`, Leaves: []Leaf{leaf("k", "if", K{"name", "e2"}, "descr")}}},
-		{Name: "uL", LLKeys: &c13LLKeys{At: P("if", e1, "tags"), Vals: []string{"t1", "t2"}}},
+		{Name: "uL", LLKeys: []c13LLKeys{{At: P("if", e1, "tags"), Vals: []string{"t1", "t2"}}}},
+		// leaf-lists of two list entries (and one in a plain container) sent as keys in one notification
+		{Name: "uL2", LLKeys: []c13LLKeys{{At: P("if", e1, "tags"), Vals: []string{"t1", "t2"}}, {At: P("if", e10, "tags"), Vals: []string{"x1"}}, {At: P("sys", "dns"), Vals: []string{"d1"}}}},
 		{Name: "uIfx", Upds: []Leaf{leaf("y", "ifx", e1, "descr")}},
 		{Name: "dE1", Dels: []Path{P("if", e1)}},
 		{Name: "dD", Dels: []Path{P("if", e1, "descr")}},
@@ -281,8 +283,8 @@ func c13Ops(m c13Msg) []c13WOp {
 			upd(l)
 		}
 	}
-	if m.LLKeys != nil {
-		upd(Leaf{P: m.LLKeys.At, LL: m.LLKeys.Vals})
+	for _, lk := range m.LLKeys {
+		upd(Leaf{P: lk.At, LL: lk.Vals})
 	}
 	return ops
 }
@@ -591,7 +593,7 @@ func c13Scenario(u *Universe, seq []string, workers int64, validate bool) verifr
 }
 
 func c13Sequences() [][]string {
-	all := []string{"uA", "uB", "uX", "uM", "uS", "uJ", "uK", "uL", "uIfx", "dE1", "dD", "dM", "dIf", "rE1", "dSD", "dDS", "uSD"}
+	all := []string{"uA", "uB", "uX", "uM", "uS", "uJ", "uK", "uL", "uL2", "uIfx", "dE1", "dD", "dM", "dIf", "rE1", "dSD", "dDS", "uSD"}
 	var seqs [][]string
 	maxLen := 2
 	if Tier() == "thorough" {
